@@ -140,6 +140,9 @@ func ApplyEdit(g G, p *Project, d *verifsim.Disk, inPlace bool) string {
 		} else if m.ID != 0 {
 			m.Deleted = true
 			d.RemoveAll(p.Root + "/" + m.Path)
+			// a directory that becomes empty disappears too, so that a later restore
+			// makes a directory appear that an earlier build looked for and did not find
+			d.PruneEmptyDirs(p.Root+"/"+m.Path, p.Root+"/src")
 			desc = "delete " + m.Path
 		}
 	case EdRename:
@@ -158,6 +161,37 @@ func ApplyEdit(g G, p *Project, d *verifsim.Disk, inPlace bool) string {
 		d.RemoveAll(p.Root + "/" + old)
 		desc += " " + old + " -> " + m.Path
 	case EdShadow:
+		if p.TS != nil && p.TS.Fallback && g.n(2) == 0 {
+			// a file appears in (or disappears from) the first "paths" candidate directory,
+			// which may not exist yet
+			var cands []*Module
+			for _, m := range p.Mods {
+				if isJS(m.Kind) && !m.Deleted && strings.HasPrefix(m.Path, "src/") {
+					cands = append(cands, m)
+				}
+			}
+			if len(cands) == 0 {
+				return desc + " (none)"
+			}
+			m := cands[g.n(len(cands))]
+			op := "override/" + strings.TrimPrefix(m.Path, "src/")
+			if _, ok := p.Extra[op]; ok && !p.ExtraDel[op] {
+				p.ExtraDel[op] = true
+				d.RemoveAll(p.Root + "/" + op)
+				d.PruneEmptyDirs(p.Root+"/"+op, p.Root)
+				desc = "override removed " + op
+			} else {
+				v, f := expNames(m)
+				if m.Kind == "cjs" {
+					p.Extra[op] = fmt.Sprintf("console.log(\"OVERRIDE%d\");\nexports.%s = ['override'];\nexports.%s = function(o) { return o };\nexports.default = 0;\n", m.ID, v, f)
+				} else {
+					p.Extra[op] = fmt.Sprintf("console.log(\"OVERRIDE%d\");\nexport const %s = ['override'];\nexport function %s(o) { return o }\nexport default 0;\n", m.ID, v, f)
+				}
+				delete(p.ExtraDel, op)
+				desc = "override added " + op
+			}
+			break
+		}
 		var cands []*Module
 		for _, m := range p.Mods {
 			if (m.Kind == "js" || m.Kind == "jsx") && !m.Deleted {
